@@ -122,6 +122,28 @@ def parse_tlc_tuple(line):
         return None
 
 
+def tlc_tuples(out):
+    """All tuples TLC printed with PrintT; TLC wraps long values over several lines, so lines are joined until the
+    brackets balance."""
+    res, buf = [], None
+    for line in out.splitlines():
+        if buf is None:
+            if line.startswith("<<"):
+                buf = line
+            else:
+                continue
+        else:
+            buf += " " + line.strip()
+        if buf.count("<<") <= buf.count(">>"):
+            t = parse_tlc_tuple(buf)
+            if t is not None:
+                res.append(t)
+            buf = None
+        elif len(buf) > 20000:
+            buf = None
+    return res
+
+
 FINAL_RE = re.compile(r"(\d+) states generated, (\d+) distinct states found, (\d+) states left on queue")
 DEPTH_RE = re.compile(r"The depth of the complete state graph search is (\d+)")
 
@@ -158,12 +180,9 @@ def tlc_mc(module, cfg, workers=8, timeout=900, xmx="8g", env_extra=None, simula
         m = DEPTH_RE.search(line)
         if m:
             res["depth"] = int(m.group(1))
-        if line.startswith("<<"):
-            t = parse_tlc_tuple(line)
-            if t is not None:
-                res["tuples"].append(t)
         if line.startswith("Error: Invariant") or "is violated" in line:
             res["violation"] = line.strip()
+    res["tuples"] = tlc_tuples(out)
     if simulate:
         # simulation mode prints a different summary
         m = re.search(r"(\d+) states checked", out)
@@ -243,13 +262,11 @@ def tlc_trace(module, trace_path, shards=12, xmx="3g", timeout=1800, cfg=None, m
             mm = FINAL_RE.search(line)
             if mm:
                 m = mm
-            if line.startswith("<<"):
-                t = parse_tlc_tuple(line)
-                if t is not None:
-                    if len(t) > 1 and isinstance(t[1], int) and t[0] in ("MISMATCH", "INFO", "KNOWN", "DRIFT", "DONTCARE"):
-                        tuples.append((offsets[i] + t[1], t))
-                    else:
-                        tuples.append((None, t))
+        for t in tlc_tuples(out):
+            if len(t) > 1 and isinstance(t[1], int) and t[0] in ("MISMATCH", "INFO", "KNOWN", "DRIFT", "DONTCARE"):
+                tuples.append((offsets[i] + t[1], t))
+            else:
+                tuples.append((None, t))
         if p.returncode != 0 or m is None or "NOTCONSUMED" in out or "Error:" in out:
             if consumed:
                 log("trace shard %d of %s: rc=%d\n%s" % (i, module, p.returncode, out[-1800:]))
